@@ -473,3 +473,28 @@ def diverges(losses):
     last-bit differences between eager and jitted arithmetic beyond any fixed tolerance and are not compared."""
     a = np.asarray(losses, dtype=np.float64)
     return (not np.all(np.isfinite(a))) or bool(np.max(np.abs(a)) > 1e6 * (1.0 + abs(a[0])))
+
+
+def ill_conditioned(prog, n_iter, ref, got_losses, **kw):
+    """Called only when solve() and the reference loop disagree: re-runs the reference loop from parameters perturbed by
+    a relative 1e-12.  If that alone moves the loss history by at least a thousandth of the observed disagreement, the
+    program amplifies rounding noise (chaotic training) and cannot discriminate: the case is skipped.  A real defect in a
+    well-conditioned program gives a disagreement many orders of magnitude above the perturbation response."""
+    import jax
+
+    def rel(a, b):
+        a, b = np.asarray(a, dtype=np.float64), np.asarray(b, dtype=np.float64)
+        m = min(len(a), len(b))
+        with np.errstate(all="ignore"):
+            d = np.abs(a[:m] - b[:m]) / (1e-300 + np.abs(b[:m]))
+        d = d[np.isfinite(d)]
+        return float(np.max(d)) if d.size else 0.0
+
+    observed = rel(got_losses, ref["loss"])
+    if observed == 0.0:
+        return False
+    p2 = jax.tree_util.tree_map(lambda x: x * (1.0 + 1e-12) if hasattr(x, "dtype") and np.issubdtype(np.asarray(x).dtype, np.floating) else x,
+                                prog["params"])
+    ref2 = reference_loop(prog, n_iter, params=p2, **kw)
+    response = rel(ref2["loss"], ref["loss"])
+    return response >= 1e-3 * observed
